@@ -44,6 +44,8 @@ func c16(w *core.World, r *core.Report) {
 	r.Rule("R08.3", "what the follower holds after a restart is contiguous: gap truncation keeps the newest run and drops a snapshot the log does not continue (shared with C08)", 3)
 	r.Rule("R08.6", "contiguity includes the snapshot/log joint (shared with C08)", 1)
 	ruleTruncateGap(w, r)
+	r.Rule("R16.11", "the leader's id is adopted only for a copy known to be its prefix: a copy held under another id that does not end at the leader's offset is discarded before the re-labelling, not after a data request that may fail", 1)
+	ruleRelabelOnlyAPrefix(w, r)
 	r.Rule("R16.9", "a follower that is ahead keeps its copy: before talking to the leader it discards only when it is behind", 1)
 	ruleFollowerAheadKeepsCopy(w, r)
 	r.Rule("R16.7", "every refusal code maps to a non-nil error in the follower's response handler (all paths)", 5)
@@ -876,6 +878,15 @@ func ruleFollowerAheadKeepsCopy(w *core.World, r *core.Report) {
 		return
 	}
 	leader := paramOf(f, "StartPoint", "leaderSp")
+	heldID := fieldOf("RunId", func(b ssa.Value) bool {
+		return core.DependsOn(b, func(x ssa.Value) bool {
+			c, ok := x.(*ssa.Call)
+			return ok && c.Call.IsInvoke() && c.Call.Method.Name() == "StartPoint"
+		})
+	})
+	leadID := fieldOf("RunId", func(b ssa.Value) bool {
+		return leader != nil && core.DependsOn(b, func(x ssa.Value) bool { return isParam(leader)(x) || paramAtUse(leader, x) })
+	})
 	n := 0
 	for _, s := range core.Sites(f, false) {
 		if !s.Common().IsInvoke() || s.Method != "DelRunId" {
@@ -918,7 +929,10 @@ func ruleFollowerAheadKeepsCopy(w *core.World, r *core.Report) {
 					behind = true
 				}
 			}
-			if !behind {
+			// a copy held under another id than the leader's is not what the hand-over is about: the leader
+			// refuses ids it does not have (R16.1), and such a copy is re-labelled or cleared, never offered
+			foreign := p.Holds(token.NEQ, heldID, leadID) || p.Holds(token.NEQ, leadID, heldID)
+			if !behind && !foreign {
 				bad = "the follower discards its own copy before talking to the leader on a path that did not establish that it is behind the leader (leader offset − own offset > c on the signed difference): a follower that holds more than the leader is wiped instead of being offered the leadership"
 			}
 		})
@@ -931,4 +945,73 @@ func ruleFollowerAheadKeepsCopy(w *core.World, r *core.Report) {
 	if n == 0 {
 		r.OK("preSync/discard-only-when-behind", f.Pos(), "the follower never discards its copy before talking to the leader")
 	}
+}
+
+// ---------------------------------------------------------------- R16.11 re-labelling only what is a prefix of the leader's history
+
+// ruleRelabelOnlyAPrefix: channel.SetRunId(leader's id) re-labels whatever the
+// follower holds (the disk cache renames the directory, the memory cache
+// overwrites its id). From then on an offset comparison cannot tell the copy
+// from a prefix of the leader's history. In preSync every path to that call has
+// therefore either removed the copy (DelRunId), or established that the copy is
+// under the leader's id already, that nothing is held, or that it ends exactly
+// at the leader's offset. Leaving it to the guard of aofSync is too late: that
+// runs after the data request, and when the request fails the next round
+// continues the foreign bytes (W31).
+func ruleRelabelOnlyAPrefix(w *core.World, r *core.Report) {
+	f := fn(w, r, "(*syncer.ReplicaFollower).preSync")
+	if f == nil {
+		return
+	}
+	leader := paramOf(f, "StartPoint", "leaderSp")
+	if leader == nil {
+		r.Unresolved("preSync/leader", "the leader's start point parameter was not found")
+		return
+	}
+	fromHeld := func(b ssa.Value) bool {
+		return core.DependsOn(b, func(x ssa.Value) bool {
+			c, ok := x.(*ssa.Call)
+			return ok && c.Call.IsInvoke() && c.Call.Method.Name() == "StartPoint"
+		})
+	}
+	fromLeader := func(b ssa.Value) bool {
+		return core.DependsOn(b, func(x ssa.Value) bool { return isParam(leader)(x) || paramAtUse(leader, x) })
+	}
+	heldID, heldOff := fieldOf("RunId", fromHeld), fieldOf("Offset", fromHeld)
+	leadID, leadOff := fieldOf("RunId", fromLeader), fieldOf("Offset", fromLeader)
+	bad := ""
+	var pos token.Pos = f.Pos()
+	n := 0
+	okEnum := core.EnumPathsN(f.Blocks[0], 0, 100000, 1, func(p *core.Path) {
+		if bad != "" {
+			return
+		}
+		cleared := false
+		for _, s := range pathSites(p) {
+			if !s.Common().IsInvoke() {
+				continue
+			}
+			if s.Method == "DelRunId" && !failedOn(p, s.Value()) {
+				cleared = true
+			}
+			if s.Method != "SetRunId" {
+				continue
+			}
+			n++
+			if cleared {
+				continue
+			}
+			same := p.Holds(token.EQL, heldID, leadID) || p.Holds(token.EQL, leadID, heldID)
+			none := p.Holds(token.EQL, heldID, isConstStr(""))
+			joins := p.Holds(token.EQL, heldOff, leadOff) || p.Holds(token.EQL, leadOff, heldOff)
+			if !same && !none && !joins {
+				bad, pos = "the follower's copy is re-labelled with the leader's id on a path that neither removed it nor established that it is under that id already, that nothing is held, or that it ends exactly at the leader's offset: if the data request that follows fails, the next round takes bytes of another history for a prefix of the leader's and continues them", s.Pos()
+			}
+		}
+	})
+	if !okEnum {
+		r.Undecided("preSync/relabel-only-a-prefix", f.Pos(), "too many paths")
+		return
+	}
+	r.Check(bad == "" && n > 0, "preSync/relabel-only-a-prefix", pos, "%s", bad)
 }
